@@ -566,7 +566,7 @@ func runC05(c *Ctx) error {
 // ---- directed cases from the defect hunt (notes/hunt/C05) -----------------------------------------------------------
 
 // c05Directed: legal calls must return also after another caller's mistake: a Shard value that cannot be a map key
-// (finding C05-2: the context's mutex stayed locked), a batch function that ends its goroutine (finding C05-3: the
+// (finding C05-1: the context's mutex stayed locked), a batch function that ends its goroutine (finding C05-2: the
 // other callers of the batch waited for ever).
 func c05Directed(c *Ctx) {
 	rep := c.Rep
